@@ -611,8 +611,8 @@ func c04Options(R *vr.Result, rng *rand.Rand, bin, root string) {
 	users := []ou{{"root", "Root-Quartz-Zebra-Lamp-77!", 1, true}, {"weak2", "abc123", 2, false}, {"weak3", "password1", 3, true}, {"strong2", "Lamp-Quartz-Zebra-42-horse?", 2, false},
 		{"strong3", "kT7#vQ2$mZ9!pL4^wX8&bN3", 3, false}, {"cur1", "abc", 1, false}}
 	plant := func() {
-		os.RemoveAll(dir)                              //nolint:errcheck
-		os.MkdirAll(filepath.Join(base, ".tmp"), 0700) //nolint:errcheck
+		os.RemoveAll(dir)                                        //nolint:errcheck
+		os.MkdirAll(filepath.Join(base, ".tmp"), 0700)           //nolint:errcheck
 		os.WriteFile(cfg, []byte(ref.YAML(base, 1, sets)), 0600) //nolint:errcheck
 		for _, u := range users {
 			ps := sets[u.set-1]
@@ -631,7 +631,7 @@ func c04Options(R *vr.Result, rng *rand.Rand, bin, root string) {
 		{"--policy-type", "zxcvbn", "--policy-condition", "score >= 4"},
 		{"--do-upgrades", "local", "--policy-type", "zxcvbn", "--policy-condition", "entropy >= 60", "--hooks-dir", filepath.Join(root, "opt-hooks")},
 	}
-	os.MkdirAll(filepath.Join(root, "opt-hooks"), 0700)                                               //nolint:errcheck
+	os.MkdirAll(filepath.Join(root, "opt-hooks"), 0700)                                         //nolint:errcheck
 	os.WriteFile(filepath.Join(root, "opt-hooks", "h.sh"), []byte("#!/bin/sh\nexit 1\n"), 0700) //nolint:errcheck
 	for ci, extra := range combos {
 		plant()
